@@ -9,14 +9,14 @@ TEXT = {
  'C05': ('Bounded symbolic model checking of the real decoder (IR-derived C, CBMC/SAT): every primitive from an arbitrary I_dec state on arbitrary remaining input of bounded length, at hooked window sizes; End-of-input must be thrown exactly when the input is a truncated prefix. Block/file level: CdnsBlockRead::read truncated at every token boundary and CdnsReader::read_block one step from an arbitrary reader state (nested reads as contracts): CdnsDecoderEnd propagates, eof exactly at the end, the block counter counts complete blocks only; file header (reader_header): input ending inside the header gives CdnsDecoderEnd.', '4 C05, 3.2, 3.6'),
  'C06': ('Bounded symbolic model checking of the real encoder: one inductive step per public write operation from an arbitrary buffer state (symbolic fill level/contents/argument) against a reference RFC 8949 encoder; sequences of any length follow from the step.', '4 C06, 3.2'),
  'C07': ('Bounded symbolic model checking of the real decoder against a reference RFC 8949 parser, all head widths and window offsets; skip_item verified body-wise against the contract of its recursive call.', '4 C07, 3.3'),
- 'C01': ('Compositional bounded model checking: L1 bytes<->items is C06/C07; here L2: every block-level structure\'s write() equals an independently written RFC 8618 reference encoding and read() of the reference encoding returns the value (all presence subsets, full-width integers, symbolic member order; directed runs with every member present). Block composition with the nested reads/writes as contracts: CdnsBlock::write / write_blocktables (w_block, w_blocktables), CdnsBlockRead::read (r_block_*: members, record order, parameter set, time-offset data flow under arbitrary hint masks), CdnsReader::read_block (reader_block_o0). Generic record -> block: C04 and generic_lists (add_generic_rrlist/qlist: every stored entry denotes exactly its record). Not encoded: read_blocktables, read_generic_*.', '4 C01, 3.5, 9.2, 9.3'),
+ 'C01': ('Compositional bounded model checking: L1 bytes<->items is C06/C07; here L2: every block-level structure\'s write() equals an independently written RFC 8618 reference encoding and read() of the reference encoding returns the value (all presence subsets, full-width integers, symbolic member order; directed runs with every member present). Block composition with the nested reads/writes as contracts: CdnsBlock::write / write_blocktables (w_block, w_blocktables), CdnsBlockRead::read (r_block_*: members, record order, parameter set, time-offset data flow under arbitrary hint masks), CdnsReader::read_block (reader_block_o0). Generic record -> block: C04 and, in the thorough tier, generic_lists_* (add_generic_rrlist/qlist: every stored entry denotes exactly its record; quick tier: C11). Not encoded: read_blocktables, read_generic_*.', '4 C01, 3.5, 9.2, 9.3'),
  'C02': ('Bounded model checking of every *::write against an item acceptor: exactly one well-formed item per call, declared length == members present, every key followed by a value, including structures with no member set; block level: CdnsBlock::write helpers (w_blocktables, w_block) and the exporter document automaton one step at a time (header once before the first block, blocks, exactly one break iff blocks were written: exp_write_block, exp_rotate, exp_destroy).', '4 C02, 3.5, 9.1'),
  'C08': ('Bounded model checking of every map reader on the reference encoding with a symbolic permutation of the members, definite/indefinite form and unknown members with opaque values (<= 2..4 members per map in the quick tier), plus directed runs with every member present; file header (reader_header): file array and blocks array in either length form.', '4 C08, 3.5, 9.3, 9.12'),
  'C09': ('Bounded model checking of the preamble structures: write() == RFC 8618 reference encoding, read(reference) == value member for member including presence and list order (symbolic-order readers for the small structures; directed readers -- every member present, canonical order, all values symbolic -- for FilePreamble, StorageParameters, CollectionParameters, BlockParameters); CdnsReader constructor / read_file_header (reader_header) stores the preamble and the blocks-array form for read_block().', '4 C09, 3.5, 9.3, 9.12'),
  'C10': ('Bounded model checking: encoder operations return the bytes appended (L1); with an arbitrary positive size per encoder call every *::write returns exactly the sum (L2).', '4 C10'),
- 'C04': ('Bounded model checking of the real CdnsBlock::add_question_response_record / add_address_event_count (add_malformed_message: thorough) on real block tables under FULLY SYMBOLIC hint masks (all 2^32 x 2^32 x 2^8 x 2^8 values): a member is stored iff its hint bit is set and the value was given, values kept, the address table holds only entries a stored member refers to, address events only when their bit is set; record members symbolic in groups (the other groups concretely absent); StorageHints::write emits the masks (w_storagehints). RR lists of the generic record: generic_lists (two records per list, every RR hint mask: TTL/RDATA stored iff hinted and supplied by that record). The CdnsBlock::write side of reachability is outside the bound.', '4 C04, 9.3, 9.12'),
+ 'C04': ('Bounded model checking of the real CdnsBlock::add_question_response_record / add_address_event_count (add_malformed_message: thorough) on real block tables under FULLY SYMBOLIC hint masks (all 2^32 x 2^32 x 2^8 x 2^8 values): a member is stored iff its hint bit is set and the value was given, values kept, the address table holds only entries a stored member refers to, address events only when their bit is set; record members symbolic in groups (the other groups concretely absent); StorageHints::write emits the masks (w_storagehints). RR lists of the generic record: generic_lists_* in the thorough tier (two records per list, every RR hint mask: TTL/RDATA stored iff hinted and supplied by that record; quick tier: C11). The CdnsBlock::write side of reachability is outside the bound.', '4 C04, 9.3, 9.12'),
  'C03': ('Bounded symbolic model checking of every read-side unit that touches untrusted bytes (decoder primitives on arbitrary input, renderers on arbitrary strings) plus an SMT verdict over all 64-bit values for the time-offset arithmetic; memory safety = CBMC pointer/bounds checks inside the real code; division by zero asserted in every unit; schema level: CdnsBlockRead::read (complete, truncated, parameter index out of range) and the file header reader on four arbitrary items (any kind / length / bytes, toupper precondition): failure only through the exceptions of the decoder.', '4 C03, 9.12'),
- 'C11': ('Solver verdict for all values of each table key type (hash/equality agreement, two symbolic values) and bounded model checking of whole BlockTable histories (<= 3 symbolic additions + queries); CdnsBlock::add_generic_rrlist / add_generic_qlist on two symbolic records: returned and stored indices valid, each entry denotes its record (generic_lists).', '4 C11, 9.12'),
+ 'C11': ('Solver verdict for all values of each table key type (hash/equality agreement, two symbolic values) and bounded model checking of whole BlockTable histories (<= 3 symbolic additions + queries); CdnsBlock::add_generic_rrlist / add_generic_qlist on two symbolic records: returned and stored indices valid, each entry denotes its record (generic_lists_q, generic_lists_rr_ttl with concrete names and symbolic TTL presence / hint mask; RDATA variants in the thorough tier).', '4 C11, 9.12'),
  'C12': ('Bounded model checking of one exporter step from an arbitrary valid state (inductive): flush exactly at the configured size, conservation of records across a flush, re-arming with the active parameter set, counters.', '4 C12, 3.2'),
  'C20': ('Inventory of library-owned mutable globals and external calls recomputed from the IR on every run + solver-checked footprint (no store can alias such a global) on representative entry points of every unit; schedules themselves are not explored.', '4 C20, 3.9'),
  'C13': ('Bounded model checking of rotation at the writer and encoder layers: a rotation that returns normally has closed the old output; all buffered bytes reach the old sink first; exporter level, one step from an arbitrary valid state: rotate_output closes the old document with exactly one break iff it holds blocks, rotates the writer once, resets the counter, keeps unexported records (exp_rotate, exp_destroy).', '4 C13, 9.1'),
